@@ -295,7 +295,8 @@ def rule_const_masks(ctx):
             r.violate(k, 'const-value', k.split('::')[-1], '%s is %s, expected %s' % (k, got, hex(v)), expected=hex(v))
     # literal masks / clamp used in the sketch code
     b = ctx.body('common::frequency_sketch::FrequencySketch::frequency')
-    consts = [s['rv'] for _, _, s in b.stmts() if s['st'] == 'assign' and s['rv']['rv'] == 'binop' and s['rv']['op'] == 'BitAnd']
+    bodies = [b] + [ctx.prog.bodies[c] for c in ctx.prog.closures_of.get(b.nid, [])]
+    consts = [s['rv'] for bb in bodies for _, _, s in bb.stmts() if s['st'] == 'assign' and s['rv']['rv'] == 'binop' and s['rv']['op'] == 'BitAnd']
     nib = [c for c in consts if c['b'].get('val') == 15 or c['a'].get('val') == 15]
     r.instance(function=b.nid, nibble_mask_sites=len(nib))
     if not nib:
@@ -387,7 +388,7 @@ def rule_sketch_structure(ctx):
     # --- depth 4
     for fn in ('frequency', 'increment'):
         b = ctx.body(SK + '::' + fn)
-        ranges = [s['rv'] for _, _, s in b.stmts() if s['st'] == 'assign' and s['rv']['rv'] == 'aggr' and s['rv'].get('kind') == 'adt' and norm(s['rv']['adt']) == 'std::ops::Range']
+        ranges = [s['rv'] for bb in [b] + [prog.bodies[c] for c in prog.closures_of.get(b.nid, [])] for _, _, s in bb.stmts() if s['st'] == 'assign' and s['rv']['rv'] == 'aggr' and s['rv'].get('kind') == 'adt' and norm(s['rv']['adt']) == 'std::ops::Range']
         ok = any(rg['ops'][0].get('val') == 0 and rg['ops'][1].get('val') == 4 for rg in ranges)
         r.instance(function=b.nid, depth_range_0_4=ok)
         if not ok:
